@@ -7,6 +7,12 @@ MCDefs == RangeOf(DefSeq)
 \* replay configs print one line per reachable state: the case and the outcome demanded
 Emit == PrintT(<<"REPLAY", ToJson([def |-> def.id, line |-> line, env |-> env, outside |-> st.outside,
                                    expect |-> Out])>>)
+\* completion configs print, per viable state, every partial item with the bounds the specification puts on the candidates
+ActiveCmds == LET t == Cur(st).lvl.tail IN
+              IF t.kind = "cmd" THEN [k \in DOMAIN t.cmds |-> [n |-> t.cmds[k].names[1], w |-> CmdWords(t.cmds[k])]] ELSE <<>>
+CEmit == Viable(st) => PrintT(<<"REPLAY", ToJson([def |-> def.id, line |-> line, env |-> env, outside |-> FALSE, acmds |-> ActiveCmds,
+            comps |-> {[p |-> PartialText(p), must |-> MustOffer(st, p), may |-> MayOffer(st, p), pending |-> (st.pending # "")]
+                       : p \in {p \in Partials(def) : ~(p.k = "short" /\ Foreign(st, p.s))}}])>>)
 \* design configs hide the history: states are identified by their denotation
 DesignView == <<def.id, env, st, Len(line)>>
 =============================================================================
